@@ -40,6 +40,10 @@ def obligations(tier):
     # changed and the readings are recalculated, they obey the definition for the NEW period
     for name in ("SMA", "EMA", "RMA", "WMA", "VWMA"):
         obs.append(Ob(f"{name}/period 3->2 + recalculate/n=6", dict(name=name, n=6), DEF, fn="run_reparam", weight=6, budget_s=300))
+        # ... also when the change comes before the indicator has warmed up (every stored reading is still None), through the
+        # indicator's own recalculate(), and when the member is replaced by one of the same name reading another input
+        for variant in ("before-warm-up", "indicator.recalculate", "replaced-member") if name != "VWMA" else ("before-warm-up",):
+            obs.append(Ob(f"{name}/{variant} + recalculate/n=7", dict(name=name, n=7, variant=variant), DEF, fn="run_reparam", weight=7, budget_s=300))
     # the same definitions over the buckets of a collapsing timeframe that is fed live (one raw candle per append)
     for name, kw, n in (("SMA", dict(period=2), 6), ("EMA", dict(period=2), 8), ("RMA", dict(period=2), 8), ("WMA", dict(period=2), 6), ("HMA", dict(period=4), 12)):
         obs.append(Ob(f"live-T2-feed/{name}{kw}/n={n}", dict(spec=["ind", name, kw], n=n, feed="live-T2"), DEF, weight=n * 3, budget_s=300 if tier == "quick" else 2400, max_paths=100000))
@@ -67,6 +71,45 @@ def run_reparam(ctx, P):
     if name == "VWMA":
         for c in cs:
             ctx.assume(c.volume > 0)
+    variant = P.get("variant")
+    if variant == "before-warm-up":
+        # period 5 on three candles: nothing but None so far; then period 2, recalculate, and the rest of the stream
+        ind = build(name, dict(period=5), round_value=RV)
+        src = clone(cs)
+        hx = Hexital("hx", src[:3], [ind])
+        hx.calculate()
+        ind.period = 2
+        hx.recalculate()
+        for c in src[3:]:
+            hx.append(c)
+        got = ind.as_list()
+        ctx.observe("readings", got)
+        compare_series(ctx, f"{name}(period 5->2 before warm-up)", got, expected(ctx, name, dict(period=2), cs))
+        return
+    if variant == "indicator.recalculate":
+        ind = build(name, dict(period=5), candles=clone(cs)[:4], round_value=RV)
+        ind.calculate()
+        ind.period = 3
+        ind.recalculate()
+        for c in clone(cs)[4:]:
+            ind.append(c)
+        got = ind.as_list()
+        ctx.observe("readings", got)
+        compare_series(ctx, f"{name}(period 5->3, Indicator.recalculate)", got, expected(ctx, name, dict(period=3), cs))
+        return
+    if variant == "replaced-member":
+        first = build(name, dict(period=3), round_value=RV)
+        hx = Hexital("hx", cs, [first])
+        hx.calculate()
+        second = build(name, dict(period=3, input_value="open"), round_value=RV)
+        if not ctx.require("same generated name", second.name == first.name):
+            return
+        hx.add_indicator(second)          # registered under the name of the existing member: it takes its place
+        hx.recalculate(second.name)
+        got = hx.reading_as_list(second.name)
+        ctx.observe("readings", got)
+        compare_series(ctx, f"{name}(member replaced, recalculate(name))", got, expected(ctx, name, dict(period=3, input_value="open"), cs))
+        return
     ind = build(name, dict(period=3), round_value=RV)
     hx = Hexital("hx", cs, [ind])
     hx.calculate()
